@@ -12,7 +12,7 @@ RULE = ("end-to-end through the real run_prompt loop (binary built with the scri
 ASSUMPTIONS = ["dialoguer (terminal input, history, completion) is bypassed by the hook; the loop, the state carrying and the printing are the real run_prompt",
                "only program output (lines written by puts with the @@O prefix) is compared; the REPL's echo of the last value and the wording of diagnostics are not"]
 BINARY_PROFILES = ["dev"]
-NAMES = ["x", "y", "z"]
+NAMES = ["x", "y", "z", "first", "last", "time"]      # user bindings may reuse the names of builtins
 
 
 def hx(s):
@@ -91,6 +91,13 @@ def gen_line(rng, defined, fns):
         return rng.choice([f"let {n} = nope_{rng.randint(0, 9)};", f"puts(\"@@O \", undefined_q);", "break;", "return 1;",
                            f"fn {rng.choice(['f', 'g', 'h'])}(a) {{ let {n} = 2; return nope_z; }}", f"let {n} = 1; let w = nope; puts(\"@@O \", {n});",
                            f"{{ let {n} = 5; nope_inner; }}"])
+    if r < 0.86:
+        # a line that defines a function (whose body holds its own literals) and then stops with a runtime error:
+        # the definition was executed, later lines call it after adding constants of their own
+        f = rng.choice(["f", "g", "h"])
+        fns.add(f)
+        k = rng.randint(1, 8)
+        return f"fn {f}(a) {{ a + {111 * k} }} puts(\"@@O \", {f}({k})); {rng.choice(['[1][9];', '1 / 0;', 'len(1);'])}"
     if r < 0.92:
         k = rng.randint(1, 9)
         return rng.choice([f"puts(\"@@O \", {k}); 1 / 0; puts(\"@@O \", {k + 1});", f"let {n} = [1][5];", f"let {n} = {k}; [1][9]; let {rng.choice(NAMES)} = 0;",
